@@ -418,7 +418,12 @@ impl TryFrom<Option<&SubtypeElements>> for PerVisibleRangeConstraints {
                 subtype,
                 extensible,
             }) => per_visible_range_constraints(
-                matches!(subtype, ASN1Type::Integer(_)),
+                // a referenced type may be an INTEGER type: only builtin non-integer types
+                // have the implicit lower bound 0 of a size
+                matches!(
+                    subtype,
+                    ASN1Type::Integer(_) | ASN1Type::ElsewhereDeclaredType(_)
+                ),
                 subtype.constraints(),
             )
             .map(|mut range| {
